@@ -313,6 +313,51 @@ def evaluator_cases(ctx, r, cases):
                     {'call': 'Evaluator.run_evaluation', 'predicate': 'metrics'})
 
 
+def eager_unbatched(ctx, r):
+  """Un-batched, un-compiled use (a notebook, a debugger): EpisodeWrapper / AutoResetWrapper directly around the scripted
+  environment.  Stepping the same state object twice, and once compiled, gives three equal results; replaying an episode from
+  its first state gives the same episode."""
+  import jax
+  import jax.numpy as jp
+  from brax.envs.wrappers import training
+  Scripted, _ = make_env_cls()
+  n = 0
+  for R in (1, 2):
+    for auto in (False, True):
+      L = r.randint(3, 5)
+      sched = [1 if r.random() < 0.15 else 0 for _ in range(12)]
+      env = training.EpisodeWrapper(Scripted(np.asarray([sched], np.int32), by_key=False), L, R)
+      if auto:
+        env = training.AutoResetWrapper(env)
+      cstep = jax.jit(env.step)
+      s0 = env.reset(jax.random.PRNGKey(3))
+      flat = lambda st: [np.asarray(x) for x in jax.tree_util.tree_leaves((st.obs, st.reward, st.done, st.pipeline_state, st.info))]
+      histories = []
+      for rollout in range(2):
+        st, hist = s0, []
+        for i in range(L + 2):
+          a = jp.asarray([float((i + R) % 3 - 1)])
+          e1, e2, c1 = env.step(st, a), env.step(st, a), cstep(st, a)
+          n += 1
+          for name, u, v in (('eager twice', flat(e1), flat(e2)), ('eager vs compiled', flat(e1), flat(c1))):
+            if len(u) != len(v) or any(not np.array_equal(x, y, equal_nan=True) for x, y in zip(u, v)):
+              ctx.violation(f'un-batched {"AutoReset(Episode)" if auto else "Episode"} wrapper, L={L} R={R}, step {i} of rollout {rollout + 1}: '
+                            f'{name} differ: steps {np.asarray(e1.info["steps"]).tolist()} / {np.asarray((e2 if name == "eager twice" else c1).info["steps"]).tolist()}, '
+                            f'done {float(e1.done)} / {float((e2 if name == "eager twice" else c1).done)}',
+                            {'L': L, 'R': R, 'auto_reset': auto, 'sched': sched, 'step': i}, {'call': 'unbatched', 'predicate': 'eager_' + name.split()[0]})
+              return
+          hist.append((np.asarray(e1.obs).tolist(), float(e1.reward), float(e1.done), float(e1.info['truncation'])))
+          st = e1
+        histories.append(hist)
+      ctx.traces += 1
+      ctx.case(key=('eager_unbatched', L, R, auto, tuple(sched)), nontrivial=True)
+      if histories[0] != histories[1]:
+        ctx.violation(f'un-batched wrapper, L={L} R={R}: replaying from the same reset state gives another episode: {histories[0]} vs {histories[1]}',
+                      {'L': L, 'R': R, 'auto_reset': auto, 'sched': sched}, {'call': 'unbatched', 'predicate': 'replay_differs'})
+        return
+  ctx.extra['eager_unbatched_steps'] = n
+
+
 def run(ctx):
   shim.install()
   r = core.rng(ctx)
@@ -370,6 +415,7 @@ def run(ctx):
   if not quick:
     ev_cases += [(r.randint(1, 8), r.randint(1, 3), tuple(r.choice(scheds))) for _ in range(25)]
   evaluator_cases(ctx, r, ev_cases)
+  eager_unbatched(ctx, r)
   ctx.exhaustive = True
   ctx.extra['exhaustive_scope'] = f'all 2^{slen} schedules x L in 1..{maxl} x R in 1..{maxr} x 2 wrapper orders'
 
